@@ -52,4 +52,29 @@ def blkUpdate (b : Blk) (name : String) (g : SFrame → SFrame × Option Err) : 
   | none => (b, some .keyError)
   | some s => (⟨replace name (g s).1 b.frames⟩, (g s).2)
 
+/-- `del data_frames[name]` -/
+def removeName (name : String) : List (String × SFrame) → List (String × SFrame)
+  | [] => []
+  | (n, s) :: rest => if n = name then removeName name rest else (n, s) :: removeName name rest
+
+/-- creation, effect by effect, on the block: name check, NumPy's conversion of the data (before anything is
+    created), `DataFrame.create_new` (group + dataset of the final length: a half-built frame is in the block),
+    `write_direct` (h5py's stage) — and the handler that removes the half-built frame when that fails -/
+def fxBlkCreate (b : Blk) (name : String) (cols : List (String × ColType)) (data : Option (List (List Val))) :
+    Blk × Option Err :=
+  if name ∈ b.names then (b, some .duplicateName) else
+  match mkDtype cols with
+  | .error e => (b, some e)
+  | .ok c =>
+    match npRows (c.map (·.2)) (data.getD []) with
+    | .error e => (b, some e)
+    | .ok rs =>
+      if c.isEmpty then (b, some .valueError) else
+      -- df = DataFrame.create_new(…, shape, col_dtype, …): the frame exists, its rows are not written yet
+      let half : Blk := ⟨b.frames ++ [(name, ⟨c, List.replicate rs.length (fillRow (c.map (·.2))), none⟩)]⟩
+      if h5RowsOk (c.map (·.2)) rs then
+        (⟨b.frames ++ [(name, ⟨c, rs.map encRow, none⟩)]⟩, none)     -- df.write_direct(data)
+      else
+        (⟨removeName name half.frames⟩, some .typeError)   -- except: del data_frames[name]; raise
+
 end Nix.Frame
